@@ -486,8 +486,11 @@ def _worker_run(arg):
         raise ScenarioTimeout()
     old = signal.signal(signal.SIGALRM, on_alarm)
     signal.setitimer(signal.ITIMER_REAL, SCENARIO_TIMEOUT_S)
+    t0 = time.time()
     try:
-        return run_scenario(scn, tid)
+        c = run_scenario(scn, tid)
+        c['elapsed_s'] = round(time.time() - t0, 2)
+        return c
     except (ScenarioTimeout, MemoryError) as e:
         # the evaluation ran out of time or of memory although every call has an op budget: its cost is not bounded by the budget
         TRACER.active = False
